@@ -201,6 +201,7 @@ pub fn run_item(prop: &str, tier: &str, idx: usize, only: Option<&Value>) -> MRe
                 for mut c in lookup_ops(p, &flagsets[..2.min(flagsets.len())], &[0], false) { c.op.root = Some(format!("rdonly:{}", ROOT_IN)); cases.push(c); }
             }
         }
+        for c in cases.iter_mut() { c.op.via = api_flavour(prop, idx); }
         if let Some(o) = only {
             let want: Op = serde_json::from_value(o["op"].clone()).map_err(|e| Mach(format!("bad replay op: {}", e)))?;
             cases.retain(|c| c.op == want);
@@ -516,7 +517,7 @@ pub fn report(prop: &str, tier: &str) -> Report {
     let c01 = prop == "C01";
     Report {
         level: if c01 { "model_checking" } else { "exploration" },
-        rule: format!("every tree of the generator ({} trees: top-level names a,b each in {{absent,file,fifo,dir,dir+child,link(body)}} over {} link bodies, plus 39/40/41/42-link chains) x every path of the generator ({} strings: all sequences of <= {} components over {{a,b,x,.,..}} with leading/trailing '/' decorations, empty path, empty components, 255/256-byte names, a 4081-byte path) x {{resolve, resolve_nofollow, readlink, open_subpath x flag sets}} x resolver flags {{0, NO_SYMLINKS}} x backends {{kernel openat2, emulated (openat2 -> ENOSYS)}}; a case is non-trivial if the walk follows a symlink, contains '..' or ends in ELOOP/ENOTDIR; cases are distinct by construction (tree, path, op)",
+        rule: format!("every tree of the generator ({} trees: top-level names a,b each in {{absent,file,fifo,dir,dir+child,link(body)}} over {} link bodies, plus 39/40/41/42-link chains, plus special trees with their own path lists: names ending in ' (deleted)', control characters / backslashes / dots / 255-byte names, a four-level tree with every path of <= 4 components over {{a,b,..}}, nested link bodies; plus a tree containing a procfs mount, a tree containing tmpfs and bind mounts, a root that is a mount point and a root that is the caller's '/'; API flavour (RootRef, owned Root, clone of either) rotated over the work items) x every path of the generator ({} strings: all sequences of <= {} components over {{a,b,x,.,..}} with leading/trailing '/' decorations, empty path, empty components, 255/256-byte names, a 4081-byte path) x {{resolve, resolve_nofollow, readlink, open_subpath x flag sets}} x resolver flags {{0, NO_SYMLINKS}} x backends {{kernel openat2, emulated (openat2 -> ENOSYS)}}; a case is non-trivial if the walk follows a symlink, contains '..' or ends in ELOOP/ENOTDIR; cases are distinct by construction (tree, path, op)",
             sc.trees.len(), bodies(sc.thorough).len(), sc.paths.len(), if sc.thorough { 3 } else { 2 }),
         assumptions: vec![
             "the running kernel's openat2(RESOLVE_IN_ROOT|RESOLVE_NO_MAGICLINKS) is the definition of in-root resolution (Linux 6.18)".into(),
